@@ -355,3 +355,66 @@ func init() {
 	}
 	_ = allCats
 }
+
+// C08 (non-finite operands): NaN and the infinities are numbers (type() says
+// so) that Go data can carry. The package documents ErrNotANumber as "an
+// operation produced an infinity or not-a-number result": arithmetic and the
+// numeric aggregates over such operands therefore either succeed (1 / +Inf is
+// 0) or fail with exactly that category -- never with invalid-type, which would
+// say that the operand is not a number.
+func TestC08_NonFinite(t *testing.T) {
+	c := collector("C08", "non-finite")
+	check(t, func(t *rapid.T) {
+		x := gen.Pick(t, "nonfinite", []run.Node{{T: "float64", S: "NaN"}, {T: "float64", S: "+Inf"}, {T: "float64", S: "-Inf"}, {T: "float32", S: "NaN"}, {T: "float32", S: "+Inf"}, {T: "float32", S: "-Inf"},
+			{T: "decimal", S: "NaN"}, {T: "decimal", S: "Inf"}, {T: "decimal", S: "-Inf"}})
+		y := gen.Pick(t, "finite", []run.Node{{T: "json.Number", S: "2"}, {T: "json.Number", S: "0"}, {T: "json.Number", S: "-1.5"}, {T: "int", S: "3"}, {T: "uint8", S: "0"}, {T: "float64", S: "2.5"}, {T: "float64", S: "0"},
+			{T: "float32", S: "-1"}, {T: "decimal", S: "7"}, {T: "decimal", S: "0"}, {T: "float64", S: "+Inf"}, {T: "float64", S: "NaN"}})
+		op := gen.Pick(t, "op", []string{"+", "-", "*", "/", "//", "%"})
+		text := gen.Pick(t, "form", []string{"x " + op + " y", "y " + op + " x", "x " + op + " `2`", "`0` " + op + " x", "x " + op + " x", "(x " + op + " y) " + op + " `1`", "sum([x, y])", "sum([y, x, `1`])", "avg([x])", "avg([y, x])",
+			"sum(xs)", "avg(xs)", "[y, x][*] | sum(@)", "map(&(@ " + op + " `1`), xs)", "xs[?(@ " + op + " `1`) > `0`]", "sort_by(recs, &(k " + op + " `1`))", "max_by(recs, &(k " + op + " `0`))", "let $v = x in $v " + op + " y"})
+		doc := run.Node{T: "object", K: []string{"x", "y", "xs", "recs"}, A: []run.Node{x, y, {T: "array", A: []run.Node{y, x}},
+			{T: "array", A: []run.Node{{T: "object", K: []string{"k"}, A: []run.Node{y}}, {T: "object", K: []string{"k"}, A: []run.Node{x}}}}}}
+		c.Case()
+		call := run.Call{API: "search", Expr: text, Doc: &doc}
+		run.Watch(c, "non-finite", call)
+		msg := c08NonFiniteVerdict(text, doc)
+		if msg != "" {
+			c.Fail(t, run.Replay{Check: "non-finite", Kind: "custom:c08-nonfinite", Calls: []run.Call{call}, Message: msg}, op+x.S)
+			return
+		}
+		c.Label(op)
+		c.NonTrivial(text+"\x00"+doc.Text(), func() any { return map[string]any{"expr": text, "data": doc.Text()} })
+	})
+}
+
+func c08NonFiniteVerdict(text string, doc run.Node) string {
+	ce, co := run.Compile(text)
+	if co.Panic != "" || co.Failed {
+		return "Compile fails on a valid expression: " + co.String()
+	}
+	for i, o := range []run.Outcome{run.Search(text, doc.Build()), run.ExprSearch(ce, doc.Build())} {
+		what := []string{"Search", "Expression.Search"}[i]
+		if o.Panic != "" {
+			return what + " panicked: " + o.Panic
+		}
+		if !o.Failed {
+			continue
+		}
+		if o.NonNil {
+			return what + " returned a non-nil result together with an error"
+		}
+		if o.Cats != model.NaN {
+			return fmt.Sprintf("%s: arithmetic over a non-finite number failed with %v (%s); the documented category is not-a-number", what, o.Cats.Names(), o.Msg)
+		}
+	}
+	return ""
+}
+
+func init() {
+	customReplays["custom:c08-nonfinite"] = func(r run.Replay) string {
+		if len(r.Calls) == 0 || r.Calls[0].Doc == nil {
+			return "malformed replay"
+		}
+		return c08NonFiniteVerdict(r.Calls[0].Expr, *r.Calls[0].Doc)
+	}
+}
